@@ -17,14 +17,25 @@ use crate::{
 };
 
 /// synthetic source with explicit control over ctime / inode
+thread_local! {
+    /// paths whose ctime is later than their mtime in the next synthetic source (content replaced in place, mtime put back)
+    static CTIME_BUMP: std::cell::RefCell<std::collections::BTreeSet<crate::model::PathKey>> = const { std::cell::RefCell::new(std::collections::BTreeSet::new()) };
+}
+
 fn synth(model: &ModelTree, ctime_mode: u8, inode_base: u64) -> crate::model::SynthSource {
     let root = std::path::PathBuf::from(ROOT);
     let mut entries = Vec::new();
+    let bump = CTIME_BUMP.with(|b| b.borrow().clone());
     for (i, (k, e)) in model.entries.iter().enumerate() {
         let mut node = synth_node(k.last().unwrap(), e);
         match ctime_mode {
-            0 => {}                       // ctime = mtime
-            1 => node.meta.ctime = None,  // no ctime recorded
+            0 => {
+                // ctime = mtime, unless the file was rewritten in place with its mtime restored
+                if bump.contains(k) {
+                    node.meta.ctime = Some(crate::model::ts((e.mtime.0 + 1000, 0)));
+                }
+            }
+            1 => node.meta.ctime = None, // no ctime recorded
             _ => {}
         }
         node.meta.inode = if inode_base == 0 { 0 } else { inode_base + i as u64 };
@@ -113,9 +124,38 @@ fn synth_case(_ctx: &Ctx, case: u64, r: &mut Rng, rep: &mut Report) {
     }
     // inodes may change (file replaced) - irrelevant for the statement
     let inode_base2 = if inode_base != 0 && r.chance(1, 3) { 5000 } else { inode_base };
+    let ign_ctime = r.chance(1, 3);
+    let ign_inode = r.chance(1, 3);
+    // content replaced in place with the same size and the mtime put back: only the change time gives it away, which
+    // is within the premise exactly when a ctime is recorded and not ignored
+    let mut stealth = std::collections::BTreeSet::new();
+    if ctime_mode == 0 && !ign_ctime && !two_parents && r.chance(1, 2) {
+        let cands: Vec<crate::model::PathKey> = m2
+            .entries
+            .iter()
+            .filter(|(k, e)| size_of(e) > 0 && m1.entries.get(*k).is_some_and(|o| matches!(o.kind, Kind::File(_)) && o.mtime == e.mtime && size_of(o) == size_of(e)))
+            .map(|(k, _)| k.clone())
+            .collect();
+        for k in r.subset(&cands, 1, 2) {
+            if let Some(e) = m2.entries.get_mut(&k) {
+                if let Kind::File(b) = &e.kind {
+                    let mut v = b.as_ref().clone();
+                    let i = r.usize_below(v.len());
+                    v[i] ^= 0x5a;
+                    e.kind = Kind::File(std::sync::Arc::new(v));
+                    let _ = stealth.insert(k.clone());
+                }
+            }
+        }
+        if !stealth.is_empty() {
+            rep.count("in_place_changes_visible_through_ctime_only", stealth.len() as u64);
+            edits.push((crate::model::EditKind::ModifySameSize, format!("{} file(s) rewritten in place, mtime restored, ctime later", stealth.len())));
+        }
+    }
+    CTIME_BUMP.with(|b| *b.borrow_mut() = stealth.clone());
     let popts = ParentOptions::default()
-        .ignore_ctime(r.chance(1, 3))
-        .ignore_inode(r.chance(1, 3))
+        .ignore_ctime(ign_ctime)
+        .ignore_inode(ign_inode)
         .parents(if two_parents || r.chance(1, 3) { parent_ids.clone() } else { Vec::new() });
     let skip = r.chance(1, 3);
     let popts = popts.skip_if_unchanged(skip);
@@ -126,6 +166,7 @@ fn synth_case(_ctx: &Ctx, case: u64, r: &mut Rng, rep: &mut Report) {
     rep.evaluations += 1;
     let ra = catch(|| backup_synth(&env_a, &m2, &BackupOptions::default().parent_opts(popts.clone()), t0 + 100, ctime_mode, inode_base2));
     let rb = catch(|| backup_synth(&env_b, &m2, &BackupOptions::default().parent_opts(ParentOptions::default().force(true)), t0 + 100, ctime_mode, inode_base2));
+    CTIME_BUMP.with(|b| b.borrow_mut().clear());
     let (sa, sb) = match (ra, rb) {
         (Ok(Ok(a)), Ok(Ok(b))) => (a, b),
         (Err(p), _) | (_, Err(p)) => {
@@ -165,7 +206,7 @@ fn synth_case(_ctx: &Ctx, case: u64, r: &mut Rng, rep: &mut Report) {
     }
     // unmodified count must respect the premise (compare with every parent state)
     if let Some(sum) = &sa.summary {
-        let allowed = may_be_unmodified(&m1, &m2).max(if two_parents { may_be_unmodified(&m1b, &m2) + may_be_unmodified(&m1, &m2) } else { 0 });
+        let allowed = (may_be_unmodified(&m1, &m2) - stealth.len() as u64).max(if two_parents { may_be_unmodified(&m1b, &m2) + may_be_unmodified(&m1, &m2) } else { 0 });
         if sum.files_unmodified > allowed {
             rep.violation(case, "reported-unmodified-too-many", format!("{} files reported unmodified but only {allowed} kept type, size and mtime", sum.files_unmodified), detail.clone());
         }
